@@ -4,7 +4,7 @@ Symplyphysics latex printer
 
 import re
 from typing import Any
-from sympy import E, S, Expr, Mod, Mul
+from sympy import E, S, Derivative, Expr, Mod, Mul
 from sympy.matrices.dense import DenseMatrix
 from sympy.printing.latex import LatexPrinter, accepted_latex_functions
 from sympy.core.function import AppliedUndef
@@ -254,6 +254,17 @@ class SymbolLatexPrinter(LatexPrinter):  # type: ignore[misc]
         else:
             tex2 = self._print_div(d_d, d_n)
         return tex + separator + tex2
+
+    def _needs_mul_brackets(self, expr: Expr, first: bool = False, last: bool = False) -> bool:
+        """
+        Returns True if the expression needs to be wrapped in brackets when
+        printed as part of a Mul, False otherwise.  In addition to the cases covered
+        by the base printer, a derivative that is not the last factor is wrapped, since
+        otherwise the factors after it would read as part of the differentiated expression.
+        """
+        if not last and isinstance(expr, Derivative):
+            return True
+        return bool(super()._needs_mul_brackets(expr, first=first, last=last))
 
     def _needs_add_brackets(self, expr: Expr) -> bool:
         """
